@@ -50,3 +50,8 @@ claim("C17", "DESIGN.md §3 C17",
       "For all comment populations and budgets (single round): Create is unreachable within the iteration in which IsEqual held and is dominated by CanCreate(created); every successful Create is counted before the next pending comment and the counter has one writer; Delete is unreachable after a true IsEqual and dominated by CanDelete; both phases scan the same makeComments list; each platform's IsEqual lets path, line and text of both sides influence the result and CanCreate is n < maxComments; the summary is posted on every success path and Delete errors are collected. Convergence over rounds is not decided.",
       SA_NOTE,
       "static analysis: within-iteration reachability on go/cfg (loop head blocked), dominance, field-influence on the sibling IsEqual implementations")
+
+claim("C11", "DESIGN.md §3 C11",
+      "For every schedule and worker count: every Submit / publication of the summary is preceded on all paths by SortReports() and then Dedup() with no report added afterwards; the report comparator keys on path, first/last line, severity, reporter, summary and diagnostics of both operands; no goroutine in checkRules touches the summary and reports are added only by the loop draining the results channel, which is closed after all workers finished; no function reachable from the workers (call-graph closure from scanWorker and all RuleChecker.Check methods, module interfaces resolved by CHA) stores to a package-level variable; guarded state is accessed under its mutex; console/JSON rendering never iterates a map.",
+      SA_NOTE,
+      "static analysis: must-pass-through ordering on go/cfg, capture analysis of go statements, call-graph closure with CHA on module interfaces for the package-level store check, guarded-field table")
